@@ -7,6 +7,7 @@ import (
 	"fmt"
 	"math"
 	"net"
+	"net/http"
 	"net/http/httptest"
 	"net/netip"
 	"net/url"
@@ -16,6 +17,7 @@ import (
 	"sync"
 	"time"
 
+	"github.com/DataDog/datadog-traceroute/publicip"
 	"github.com/DataDog/datadog-traceroute/result"
 	"github.com/DataDog/datadog-traceroute/server"
 	"github.com/DataDog/datadog-traceroute/traceroute"
@@ -152,6 +154,7 @@ func checkC15() fw.Check {
 				id := fmt.Sprintf("C15/realtime-failing/q%d-e%d-fail%d", sh[0], sh[1], sh[2])
 				cases = append(cases, fw.Case{ID: id, Run: func(c *fw.Ctx) { runC15RealtimeFailing(c, id, sh[0], sh[1], sh[2]) }})
 			}
+			cases = append(cases, fw.Case{ID: "C15/realtime-publicip-failure", Run: func(c *fw.Ctx) { runC15RealtimePublicIPFailure(c, c.ID) }})
 			for i, rq := range reqs {
 				rq := rq
 				id := fmt.Sprintf("C15/%d/%s/q%d-e%d-f%d-%d", i, rq.proto, rq.q, rq.e, len(rq.failRuns), len(rq.failE2e))
@@ -404,6 +407,56 @@ func runC15CaseR(c *fw.Ctx, id string, rq c15Req) (ran bool, rerrOut error) {
 
 // runC15RealtimeFailing: q runs and e end-to-end probes on the real clock (timeouts of 60 ms); the first nfail
 // end-to-end probes and the first run (if any) fail at their first send.
+// runC15RealtimePublicIPFailure (REAL clock): two requests in a row through one production public-IP fetcher whose lookups
+// fail at once (the caller's context is already over; UDP runs never look at it and complete). "Failing to determine the
+// public IP never fails the request" - neither the first nor the one after it; a request that never returns because the
+// failed lookup left something locked is the same failure. Threshold 20 s for requests that take a fraction of a second.
+func runC15RealtimePublicIPFailure(c *fw.Ctx, id string) {
+	resetProcessState()
+	v := refmatch.VariantByName("udp4")
+	target := drive.TargetFor(v, 160+c.Worker)
+	params := traceroute.TracerouteParams{Hostname: target.String(), Port: 33434, Protocol: "udp", MinTTL: 1, MaxTTL: 3, Delay: 2,
+		Timeout: 60 * time.Millisecond, TracerouteQueries: 1, E2eQueries: 1, CollectSourcePublicIP: true}
+	env, err := newReqEnv(c, params, target, 33434, false)
+	if err != nil {
+		c.Inconclusive(err.Error())
+		return
+	}
+	rt := &stallRT{behave: map[string]string{}, release: make(chan struct{})}
+	for _, h := range providerHosts {
+		rt.behave[h] = "transport-error"
+	}
+	env.fetcher = publicip.VerifNewPublicIPFetcher(&http.Client{Transport: rt})
+	env.modelFor = func(k int, se *simEnv) *pathModel { return flowPath(k, se, 3, true, 300*time.Microsecond) }
+	ctx, cancel := context.WithCancel(context.Background())
+	cancel()
+	for n := 1; n <= 3; n++ {
+		type outcome struct {
+			out *result.Results
+			err error
+		}
+		done := make(chan outcome, 1)
+		go func() {
+			o, rerr := env.run(ctx)
+			done <- outcome{o, rerr}
+		}()
+		select {
+		case r := <-done:
+			if r.err != nil || r.out == nil {
+				c.Violate("C15", "publicip-failure-fails-request", fmt.Sprintf("%s: request %d: every run and probe succeeded, only the public-IP lookup failed, but the request returned result=%v err=%v", id, n, r.out != nil, r.err), nil)
+				env.close()
+				return
+			}
+		case <-time.After(20 * time.Second):
+			c.Violate("C15", "publicip-failure-hangs-request", fmt.Sprintf("%s: request %d (the %d before it had their public-IP lookup fail) had not returned after 20 s", id, n, n-1), map[string]any{"goroutines": repoGoroutines()})
+			return // a hung request still owns its handles
+		}
+	}
+	env.close()
+	c.Nontrivial("realtime-publicip-failure")
+	c.Count("requests_after_failed_publicip_lookup", 2)
+}
+
 func runC15RealtimeFailing(c *fw.Ctx, id string, q, e, nfail int) {
 	resetProcessState()
 	v := refmatch.VariantByName("udp4")
